@@ -1,4 +1,6 @@
 //! C09: SCC, connectivity, cycle detection, toposort, condensation on SymGraph (adjacency symbolic).
+#[path = "c09/reuse.rs"]
+mod reuse;
 use petgraph::algo::{
     condensation, connected_components, has_path_connecting, is_bipartite_undirected, is_cyclic_directed, is_cyclic_undirected,
     kosaraju_scc, tarjan_scc, toposort, DfsSpace, TarjanScc,
@@ -563,6 +565,9 @@ fn make(tier: &str, seed: u64) -> Vec<Box<dyn Harness>> {
     add(3, false, true, 0);
     add(4, false, true, 2);
     add(4, true, true, 7);
+    for host in [reuse::Host::Graph, reuse::Host::Stable, reuse::Host::Map, reuse::Host::Matrix, reuse::Host::Csr, reuse::Host::List] {
+        v.push(Box::new(reuse::Reuse { host }));
+    }
     for k in 0..(if tier == "thorough" { 64 } else { 8 }) {
         v.push(Box::new(Uf8 { perm_seed: if k == 0 { 0 } else { seed * 1000 + k } }));
     }
